@@ -31,6 +31,17 @@ class C01(core.Check):
         "iteration order of Axis.neighbours / Wire.coincidents is read from the implementation and handed to the model as schedule",
     ]
 
+    def corpus(self) -> List[dict]:
+        """the three propagation properties share their minimised cases"""
+        out = []
+        for pid in ("c01", "c02", "c04"):
+            d = core.CORPUS / pid
+            for f in sorted(d.glob("*.json")) if d.is_dir() else []:
+                c = json.loads(f.read_text())
+                c.setdefault("origin", f"corpus/{pid}/{f.name}")
+                out.append(c)
+        return out
+
     def gen_cases(self, rng: random.Random, tier: str) -> List[dict]:
         n = 400 if tier == "quick" else 4000
         mb = 8 if tier == "quick" else 14
